@@ -86,6 +86,13 @@ Theorem C10_old_xward_extraction_partial : forall n others x pd,
 Proof. exact xward_single_old. Qed.
 Print Assumptions C10_old_xward_extraction_partial.
 
+(* enforce_q_lims: the rule before the repair restored the whole PD column after a q-limit pass, so the xward lost its share *)
+Theorem C10_old_qlims_xward_share_refuted :
+  xward_row witql_net [1;1;1;1] (fun k => PD_after_qlims_old witql_net [3%nat] k (mkC (-6) 0) true) [witql_x] witql_x == 5 /\
+  xward_row witql_net [1;1;1;1] (fun k => PD_after witql_net [3%nat] k (mkC (-6) 0)) [witql_x] witql_x == 6.
+Proof. exact qlims_old_xward_refuted. Qed.
+Print Assumptions C10_old_qlims_xward_share_refuted.
+
 (* non-vacuity: two participating xwards on one bus next to a ZIP load satisfy the hypotheses of C10_xward_share *)
 Example C10_nonvacuous :
   let xws := [mkXw 2 2 5 (1#2) true true; mkXw 2 2 3 1 true true] in
